@@ -1,2 +1,152 @@
-(* C13 -- placeholder while the correspondence is brought up; theorems follow. *)
-From LK Require Import Lib.StrDict Gen.C13_shape Model.C13_json Model.C13_config.
+(* C13 -- A pipeline's configuration reproduces it and its hash is stable across processes.
+   Property theorems only; each is closed by `exact <lemma>` and followed by Print Assumptions.
+   The shape facts used by the model (field order of the configuration classes, which collections
+   are written sorted, where the cycle check sits, order of the from_config passes, name/version
+   kept) are the GENERATED ones (Gen/C13_shape.v): these statements are re-checked against the
+   source on every run.
+
+   Model parameters (explicit premises, never axioms):
+     sig     parameter names of a component                       (inspect.signature)
+     norm    validate-then-dump of a component's settings          (pydantic TypeAdapter); contract norm_idempotent
+     H       SHA-256 hex digest                                     ; contract collision_free
+     set_of  iteration order of a freshly built set of type names   ; contract set_contract (any order, no duplicates)
+
+   Property text -> theorem:
+   * "rebuilding from the configuration - directly, after a JSON round trip, or by cloning - yields a
+     pipeline with the same name and version, inputs and their types, components and component
+     settings, wiring with default connections resolved, aliases, default node and configuration
+     hash ... without a hash-mismatch warning"                      -> config_roundtrip, clone_equal
+   * "that returns the same results as the original on every input before training"
+                                                                    -> rebuilt_pipeline_equal_partial (the rebuilt
+       node table, wiring, aliases and default are those of the original; that a run is a function of these
+       is C02's theorem and the component contract; equality of actual run results is checked by the oracle)
+   * "for every pipeline built"                                     -> reachable_states_wellformed (every history of
+       builder operations from the empty builder gives a state the theorems apply to)
+   * "equal configurations hash equally in every process and regardless of the order in which a
+     component's connections or the aliases were declared"          -> hash_order_free
+   * "any change to a setting, connection, alias, default or name changes it"
+                                                                    -> serialize_injective, hash_changes
+   * "loading a document whose recorded hash disagrees with its content raises a warning"
+                                                                    -> tampered_hash_warns
+   * the cycle check standing for graphlib.TopologicalSorter is exact -> cycle_check_exact *)
+From Coq Require Import String Ascii List Bool Permutation.
+From LK Require Import Lib.StrDict Lib.StrDictFacts Gen.C13_shape Model.C13_json Model.C13_config
+  Proofs.C13_acyclic Proofs.C13_wf Proofs.C13_fromconfig Proofs.C13_roundtrip Proofs.C13_buildwf Proofs.C13_main
+  Proofs.C13_order Proofs.C13_print Proofs.C13_inject Proofs.C13_ops.
+Import ListNotations.
+Open Scope string_scope.
+
+Definition set_contract (set_of : list string -> list string) : Prop :=
+  forall l, NoDup (set_of l) /\ (forall x, In x (set_of l) <-> In x l).
+Definition norm_idempotent (norm : string -> option obj -> option (option obj)) : Prop :=
+  forall code s s', norm code s = Some s' -> norm code s' = Some s'.
+Definition collision_free (H : string -> string) : Prop := forall s t, H s = H t -> s = t.
+
+Theorem config_roundtrip : forall sig norm H set_of, set_contract set_of ->
+  forall b c, bwf norm b -> build sig H b = OK c ->
+  let c' := reloaded H set_of c in
+  reload sig norm H set_of c = OK (c', false) /\                (* Pipeline.from_config(p.config): no warning *)
+  cequiv c' c /\                                                  (* equal up to the order the type sets are held in *)
+  (forall ex, serialize ex c' = serialize ex c) /\                (* same JSON, with and without exclude_none *)
+  m_name (cf_meta c') = b_name b /\ m_version (cf_meta c') = b_version b /\
+  m_hash (cf_meta c') = m_hash (cf_meta c) /\
+  cf_components c' = cf_components c /\ cf_aliases c' = cf_aliases c /\ cf_default c' = cf_default c /\
+  cf_literals c' = cf_literals c /\ Forall2 input_equiv (cf_inputs c') (cf_inputs c).
+Proof. exact roundtrip_l. Qed.
+Print Assumptions config_roundtrip.
+
+(* Pipeline.clone() is from_config(self._config): same serialisation, same hash, no warning *)
+Theorem clone_equal : forall sig norm H set_of, set_contract set_of ->
+  forall b c, bwf norm b -> build sig H b = OK c ->
+  exists c', reload sig norm H set_of c = OK (c', false) /\
+    (forall ex, serialize ex c' = serialize ex c) /\ m_hash (cf_meta c') = m_hash (cf_meta c) /\
+    m_name (cf_meta c') = m_name (cf_meta c) /\ m_version (cf_meta c') = m_version (cf_meta c).
+Proof. exact clone_equal_l. Qed.
+Print Assumptions clone_equal.
+
+Theorem rebuilt_pipeline_equal_partial : forall sig norm H set_of, set_contract set_of ->
+  forall b c, bwf norm b -> build sig H b = OK c ->
+  exists b' w, from_config sig norm H set_of c = OK (b', w) /\ w = false /\
+    b_name b' = b_name b /\ b_version b' = b_version b /\
+    forall n, match dget n (b_nodes b), dget n (b_nodes b') with
+              | Some (KInput a), Some (KInput a') => Permutation a a'
+              | Some k, Some k' => k = k'
+              | None, None => True
+              | _, _ => False
+              end.
+Proof. exact rebuilt_nodes_l. Qed.
+Print Assumptions rebuilt_pipeline_equal_partial.
+
+Theorem reachable_states_wellformed : forall norm set_of, set_contract set_of -> norm_idempotent norm ->
+  forall name version ops, hist_pre norm set_of (new_builder name version) ops ->
+  bwf norm (fst (run_ops norm set_of (new_builder name version) ops)).
+Proof. exact reachable_wf_l. Qed.
+Print Assumptions reachable_states_wellformed.
+
+Theorem hash_order_free : forall sig norm H b b' ih, bwf norm b -> bwf norm b' -> bequiv b b' ->
+  match build_config sig H b ih, build_config sig H b' ih with
+  | OK c, OK c' => cequiv c c' /\ (forall ex, serialize ex c = serialize ex c') /\ m_hash (cf_meta c) = m_hash (cf_meta c')
+  | Err e, Err e' => e = e'
+  | _, _ => False
+  end.
+Proof. exact order_free_l. Qed.
+Print Assumptions hash_order_free.
+
+Theorem serialize_injective : forall ex c d, in_domain ex c -> in_domain ex d ->
+  serialize ex c = serialize ex d -> cequiv c d.
+Proof. exact serialize_inj. Qed.
+Print Assumptions serialize_injective.
+
+Theorem hash_changes : forall H, collision_free H -> forall c d,
+  in_domain hash_excludes_none (clear_hash c) -> in_domain hash_excludes_none (clear_hash d) ->
+  ~ cequiv (clear_hash c) (clear_hash d) -> H (preimage c) <> H (preimage d).
+Proof. exact hash_changes_l. Qed.
+Print Assumptions hash_changes.
+
+Theorem tampered_hash_warns : forall sig norm H set_of, set_contract set_of -> forall c, cwf norm c ->
+  exists b', from_config sig norm H set_of c = OK (b', warn_of H c) /\
+    (forall h, m_hash (cf_meta c) = Some h -> (warn_of H c = true <-> h <> H (preimage c))) /\
+    (m_hash (cf_meta c) = None -> warn_of H c = false).
+Proof. exact tampered_l. Qed.
+Print Assumptions tampered_hash_warns.
+
+Theorem cycle_check_exact : forall g, acyclic_b g = true <-> Acyclic g.
+Proof. exact acyclic_b_spec. Qed.
+Print Assumptions cycle_check_exact.
+
+(* non-vacuity: a named, versioned pipeline with a multi-type input, a literal, settings with a null, a default
+   connection, two aliases declared out of order and a default node is reachable, well-formed, builds, lies in
+   the lexical domain, and its configuration reloads without warning *)
+Example c13_nonvacuous :
+  let sig := fun code : string => if String.eqb code "m:add" then ["x"; "y"] else ["x"] in
+  let norm := fun (_ : string) (s : option obj) => Some s in
+  let H := fun s : string => s in
+  let ops := [OInput "a" ["str"; "int"; "None"];
+              OAdd "c1" "m:Scale" (Some [("factor", JTok "3"); ("label", JTok "null")]) [("x", TNode "a")];
+              ODefaultConn "y" (TNode "c1");
+              OAdd "c2" "m:add" None [("x", TLit "L" "json" (JTok "7"))];
+              OAlias "zz" "c2"; OAlias "aa" "c1"; ODefaultComp "zz"] in
+  let b := fst (run_ops norm sdedup (new_builder (Some "p") (Some "1")) ops) in
+  set_contract sdedup /\ norm_idempotent norm /\ collision_free H /\
+  hist_pre norm sdedup (new_builder (Some "p") (Some "1")) ops /\ bwf norm b /\
+  exists c, build sig H b = OK c /\ in_domain true (clear_hash c) /\
+    dget "c2" (cf_components c) = Some {| c_code := "m:add"; c_config := None; c_inputs := [("x", "L"); ("y", "c1")] |} /\
+    keys (cf_aliases c) = ["aa"; "zz"] /\
+    exists c', reload sig norm H sdedup c = OK (c', false) /\ serialize true c' = serialize true c.
+Proof.
+  cbv zeta.
+  assert (SC : set_contract sdedup) by (intro l; split; [apply sdedup_nodup|intro x; apply sdedup_in]).
+  assert (NI : norm_idempotent (fun (_ : string) (s : option obj) => Some s)) by (intros ? ? ? [= <-]; reflexivity).
+  assert (HP : hist_pre (fun (_ : string) (s : option obj) => Some s) sdedup (new_builder (Some "p") (Some "1"))
+                 [OInput "a" ["str"; "int"; "None"];
+                  OAdd "c1" "m:Scale" (Some [("factor", JTok "3"); ("label", JTok "null")]) [("x", TNode "a")];
+                  ODefaultConn "y" (TNode "c1");
+                  OAdd "c2" "m:add" None [("x", TLit "L" "json" (JTok "7"))];
+                  OAlias "zz" "c2"; OAlias "aa" "c1"; ODefaultComp "zz"]).
+  { cbn. repeat split; try exact I; try (repeat constructor); cbn; try tauto. }
+  split; [exact SC|]. split; [exact NI|]. split; [intros s t E; exact E|]. split; [exact HP|].
+  split; [apply (reachable_wf_l _ _ SC NI); exact HP|].
+  eexists. split; [vm_compute; reflexivity|]. split; [vm_compute; reflexivity|].
+  split; [vm_compute; reflexivity|]. split; [vm_compute; reflexivity|].
+  eexists. split; vm_compute; reflexivity.
+Qed.
